@@ -54,8 +54,8 @@ class Interpreter:
         :param code: Michelson code
         """
         result = InterpreterResult(stdout=[])
-        stack_backup = deepcopy(self.stack)
-        context_backup = deepcopy(self.context)
+        # copied together, context first, so that big maps in the stack copy are bound to the context copy
+        context_backup, stack_backup = deepcopy((self.context, self.stack))
 
         try:
             code_section = CodeSection.match(michelson_to_micheline(code))
